@@ -1443,6 +1443,90 @@ def e(ctx):
 # seeded faults (sensitivity self-test)
 F_MSG = "aiocoap/message.py"
 F_OPT = "aiocoap/optiontypes.py"
+# every Max-Message-Size up to 3300, then the neighbourhood (+-1, +-28, +-100, +-128) of every multiple of 1024 up to 70000 and the 32-bit extremes
+MMS_DOMAIN = sorted(set(range(1, 3301)) | {k * 1024 + d for k in range(3, 69) for d in (-129, -128, -127, -101, -100, -99, -29, -28, -27, -1, 0, 1, 27, 28, 29, 99, 100, 101, 127, 128, 129)} | {2 ** 31 - 1, 2 ** 32 - 1})
+
+
+def _run_settings_property(fi, mms, blockwise, csm_seen=True):
+    """Evaluate a property of RFC8323Remote whose body consists of assignments, ifs and returns over
+    (self._remote_settings or {}).get(<key>, <default>) in the checker's own evaluator."""
+    env = {}
+
+    def ev(e):
+        g = match("(self._remote_settings or {}).get($k, $d)", e) or match("self._remote_settings.get($k, $d)", e)
+        if g is not None and isinstance(g["k"], ast.Constant):
+            if not csm_seen:
+                return norm.consteval(g["d"], env)
+            return {"max-message-size": mms, "block-wise-transfer": blockwise}.get(g["k"].value, norm.consteval(g["d"], env))
+        if match("self._remote_settings is None", e) is not None:
+            return not csm_seen
+        if match("self._remote_settings is not None", e) is not None:
+            return csm_seen
+        if isinstance(e, ast.BoolOp):
+            vals = [ev(v) for v in e.values]
+            return all(vals) if isinstance(e.op, ast.And) else any(vals)
+        if isinstance(e, ast.UnaryOp) and isinstance(e.op, ast.Not):
+            return not ev(e.operand)
+        return norm.consteval(e, env)
+
+    def run(stmts):
+        for st in stmts:
+            if isinstance(st, ast.Expr) and isinstance(st.value, ast.Constant):
+                continue
+            if isinstance(st, ast.Assign) and len(st.targets) == 1 and isinstance(st.targets[0], ast.Name):
+                env[st.targets[0].id] = ev(st.value)
+            elif isinstance(st, ast.If):
+                r = run(st.body if ev(st.test) else st.orelse)
+                if r is not None:
+                    return r
+            elif isinstance(st, ast.Return):
+                return ("ret", ev(st.value))
+            else:
+                raise AnalysisError("%s: statement outside the evaluator's vocabulary: %s" % (fi.short, stmt_text(st, 60)))
+        return None
+
+    r = run(fi.node.body)
+    if r is None:
+        raise AnalysisError("%s does not return" % fi.short)
+    return r[1]
+
+
+@R.clause("C05.g", "BERT on reliable transports: whenever the peer's settings allow size exponent 7, the announced payload size holds at least one 1024-byte unit and the resulting message fits the peer's Max-Message-Size")
+def g_bert_sizes(ctx):
+    """Added after an independently written breaking change rewrote RFC8323Remote.maximum_payload_size so that for
+    a Max-Message-Size between 1153 and 2047 it fell below 1024 while maximum_block_size_exp stayed 7: _extract_block's
+    BERT size 1024*(max//1024) became 0 and the client sent empty non-final blocks for ever.  Both properties are
+    evaluated by the checker's own evaluator for every Max-Message-Size in MMS_DOMAIN (all values to 3300, the
+    neighbourhood of every multiple of 1024 to 70000; block-wise announced or not, CSM seen or not)."""
+    try:
+        ex = ctx.prog.cls("transports.rfc8323common.RFC8323Remote").methods["maximum_block_size_exp"]
+        pl = ctx.prog.cls("transports.rfc8323common.RFC8323Remote").methods["maximum_payload_size"]
+    except KeyError:
+        raise AnalysisError("RFC8323Remote.maximum_block_size_exp / maximum_payload_size missing")
+    bad_unit = bad_fit = None
+    n = 0
+    for csm in (False, True):
+        for bw in (False, True):
+            for mms in (MMS_DOMAIN if csm else [1152]):
+                try:
+                    e = _run_settings_property(ex, mms, bw, csm)
+                    p = _run_settings_property(pl, mms, bw, csm)
+                except NormError as x:
+                    raise AnalysisError("RFC8323Remote size properties outside the evaluator's vocabulary: %s" % x)
+                n += 1
+                if e == 7 and p // 1024 < 1 and bad_unit is None:
+                    bad_unit = (mms, bw, csm, e, p)
+                if csm and bw and e == 7 and 1024 * (p // 1024) + 128 > mms and bad_fit is None and mms > 1152:
+                    bad_fit = (mms, bw, csm, e, p)
+                if e not in (6, 7) and bad_unit is None:
+                    bad_unit = (mms, bw, csm, e, p)
+    ctx.extra["bert_size_evaluations"] = n
+    ctx.ob("with size exponent 7 the payload size holds at least one 1024-byte BERT unit", bad_unit is None, pl, pl.node, construct="RFC8323Remote.maximum_payload_size: BERT unit",
+           detail="Max-Message-Size %s (block-wise %s, CSM seen %s): exponent %s but payload size %s" % bad_unit if bad_unit else "%d settings evaluated" % n)
+    ctx.ob("a full BERT block plus 128 bytes of header/options fits the peer's Max-Message-Size", bad_fit is None, pl, pl.node, construct="RFC8323Remote.maximum_payload_size: fit",
+           detail="Max-Message-Size %s: BERT block of %s bytes" % (bad_fit[0], 1024 * (bad_fit[4] // 1024)) if bad_fit else None)
+
+
 F_PRO = "aiocoap/protocol.py"
 
 R.seed("C05.a", F_MSG, "more = True if end < len(self.payload) else False", "more = True if end <= len(self.payload) else False", "more flag on the final block")
@@ -1481,3 +1565,5 @@ R.seed("C05.e", F_PRO, "            if block2.more is False:\n                re
 R.seed("C05.e", F_PRO, "                logged = True\n                response.set_exception(e)\n", "                logged = True\n", "error never reaches the caller")
 R.seed("C05.e", F_PRO, "        except Exception as e:\n            logged = False", "        except error.Error as e:\n            logged = False", "non-aiocoap exceptions lost")
 R.seed("C05.f", F_PRO, "                block_cursor *= 2\n", "                block_cursor *= 4\n", "masked while the BERT step is refuted on the analysed tree")
+
+R.seed("C05.g", "aiocoap/transports/rfc8323common.py", "            return ((max_message_size - 128) // 1024) * 1024 + slack", "            return (max_message_size // 1024) * 1024 - 128 + slack", "payload size below 1024 for Max-Message-Size 1153..2047 while the exponent stays 7: empty BERT blocks for ever")
